@@ -69,6 +69,7 @@ Spec == Init /\ [][Next]_vars
 
 View == <<cur, ticks, paused, ov, vals, tls, Len(hist)>>
 
+FrameRateFree == PartitionFree(DTs \cup {7})
 EndedIff == IsEnded <=> (~HasTl(cur) \/ F32Round(ticks) >= TotalOfState(cur))
 TerminalWhenEnded ==
   (HasTl(cur) /\ IsEnded) => vals = Recompute(cur, NoOvAll, TotalOfState(cur) + 1000, vals)
